@@ -4,6 +4,7 @@
 import IppModel.Model.Iter
 import IppModel.Model.Attr
 import IppModel.Lemmas.SMapBasic
+import IppModel.Lemmas.Extra
 import IppModel.Lemmas.Container
 import IppModel.Lemmas.Traverse
 namespace Ipp.Props.C19
@@ -81,5 +82,13 @@ theorem traversal_ends (s : IterSt) (h : s.next.1 = none) : s.next.2 = s ∧ (s.
 /-- after a complete traversal the iterator is exhausted -/
 theorem traversal_exhausts (v : Value) : ((IterSt.collect (valueSize v + 1) v.iter).2).next.1 = none :=
   Traverse.collect_exhausts v
+
+/-- General form: from *any* start state – e.g. a parsed message with repeated groups – a history of
+    additions yields exactly the declaratively specified message (Spec/Container.lean): every existing group
+    that is the first of its kind receives the additions made to that kind, last one wins per name; other
+    groups are untouched; new kinds are appended in order of first use. -/
+theorem history_general (gs : List Group) (ops : List Spec.AddOp) :
+    ops.foldl (fun g o => addAttr o.1 o.2.1 o.2.2 g) gs = Spec.addHistory gs ops :=
+  addAll_eq_history gs ops
 
 end Ipp.Props.C19
